@@ -20,6 +20,14 @@ CLAIMED = {
          "symbolic execution of go/ssa + SMT; stack-depth assertions on every solver-feasible control path", "DESIGN.md §6 C04"),
  "C05": ("Failure injection with solver-chosen failure points: the k-th call of a host function fails (error return or Go panic) iff a symbolic Bool says so, for every k, in the C02 expression/loop/call shapes; a malformed special form at 16 evaluated positions. Asserted: the failure is reported, the four stacks are at rest, definitions completed before the failure are intact and nothing else leaked, follow-up evaluations work.",
          "symbolic execution of go/ssa + SMT; symbolic failure plan (fail_k Bool per host call)", "DESIGN.md §6 C05"),
+ "C03": ("Differential symbolic execution against a reference evaluator with static environments: 18 scoping programs (capture, sharing between closures of one activation, fresh variables per activation, shadowing, closures stored in data/returned/passed, tail vs non-tail calls) with symbolic operands, plus grammar-generated function bodies over the two-name pool {x,y} (depth<=1 quick / <=2 thorough: ~230k programs) placed in a function called from a shadowing scope and in a closure returned by its creator.",
+         "symbolic execution of go/ssa + SMT; differential against a reference evaluator, grammar case-split, operands symbolic", "DESIGN.md §6 C03"),
+ "C09": ("(space) inductive step: every self tail call under <=2 nested tail contexts (9x9 wrappers: begin, let, letseq, newScope, and, or, cond, let+def) is entered with a symbolic counter>=3 and accumulator; the four stack depths sampled by a host function at consecutive arrivals are equal, i.e. one trip round the back edge from an arbitrary state grows no stack. (invisible) the same shapes with a body that defines a local and captures it in a closure before the tail call, n in 0..3, against the reference evaluator which has no such optimisation.",
+         "symbolic execution of go/ssa + SMT; one inductive trip with symbolic counter, differential for invisibility", "DESIGN.md §6 C09"),
+ "C15": ("(templates) syntax-quoted lists/arrays of 1..3 elements (depth 0 quick / 1 thorough) over {literal, symbol, ~v, ~@l, ~(+ v 1), nested list, nested array} with v symbolic and l of case-split length 0..2 with symbolic elements: the value computed by the real compiler/VM equals an independent substitution function; (macros) 7 macros x 5 call sites: value and effect trace equal the hand-written expansion, caller's stacks at rest.",
+         "symbolic execution of go/ssa + SMT; differential against a substitution oracle, template shapes case-split", "DESIGN.md §6 C15"),
+ "C16": ("10 function bodies mixing lazy (#p), strict and variadic parameters (never forced, forced once/twice, forced on one control path, substitute, forced after the caller returned, two lazy forced in reverse order) x 8 call routes (name, alias, parameter, computed callee, apply, same-named caller locals, caller-local reference, extra argument), argument expressions are calls of the host trace function with symbolic values: value, error-ness and trace (which arguments were evaluated, how often, in what order) equal the reference evaluator (memoised thunks closed over the caller's frame); a probe function checks a strict function never receives an unevaluated argument on 7 routes.",
+         "symbolic execution of go/ssa + SMT; differential against a reference evaluator with memoised thunks", "DESIGN.md §6 C16"),
 }
 NA = {
  "C10": "record<->Go struct conversion is a reflect walk (runtime/unsafe code, no SSA to execute); a model of reflect faithful enough to judge it would itself be the thing under test",
